@@ -418,6 +418,19 @@ fn layered_sweep<A: Arith>(name: &str, thorough: bool) -> Acc {
                 }
             }
         }
+        // variables of high degree: |variable LLR| up to 127*(D+1) for D = 7, 15, 16, 17, 31, 64, 200
+        // (the property's degree range), on checks of degree 2 and 3
+        let big: Vec<f64> = [1016.0, 2032.0, 2047.0, 2048.0, 2159.0, 2286.0, 4064.0, 4095.0, 4096.0, 8255.0, 16383.0, 25400.0, 25527.0].iter().flat_map(|&x: &f64| [x, -x]).collect();
+        for &m0 in &m8 {
+            for &m1 in &m8 {
+                for &v0 in &big {
+                    for &v1 in &[0.0, 127.0, -381.0, 2159.0, -25527.0] {
+                        cases.push((vec![3, 1], vec![m0, m1], vec![777.0, v1, -5.0, v0, 9.0]));
+                        cases.push((vec![0, 4, 2], vec![m0, m1, -m0], vec![v0, 1.0, v1, -3.0, -v0, 11.0]));
+                    }
+                }
+            }
+        }
         // degrees 4..8 by profile
         for d in 4..=8usize {
             for &bgm in &[0.0, 127.0, -100.0, 5.0] {
@@ -572,13 +585,13 @@ pub fn run(run: &Run) -> i32 {
         run,
         acc,
         Coverage {
-            rule: "quantiser: every k/16 for |k| <= 2200 with both neighbours (all half-integer boundaries of 8x), +-0, +-inf, NaN, huge and subnormal values, x 24 types; 8-bit variable rule: EVERY (input, m1) and (input, m1, m2) in [-127,127], and degrees 3..200 by count profile over 3-value sub-alphabets of {-127,-116,-100,-1,0,1,100,116,127} x 9 inputs, two orderings; float variable rule: full power of a 7-value grid for degrees 1..5(6); layered primitive vs flooding rule on extrinsics: 8-bit degree 2 over 15 message values x 52 variable values inside |v| <= 381, degree 3 over grids, degrees 4..8 by profile, float degrees 2..3(4) over 6-value grids; variables not on the row must be untouched. Built with overflow checks; every call guarded. Non-trivial = saturating or boundary case (quantiser, 8-bit variable rule) / completed comparison (layered).".into(),
+            rule: "quantiser: every k/16 for |k| <= 2200 with both neighbours (all half-integer boundaries of 8x), +-0, +-inf, NaN, huge and subnormal values, x 24 types; 8-bit variable rule: EVERY (input, m1) and (input, m1, m2) in [-127,127], and degrees 3..200 by count profile over 3-value sub-alphabets of {-127,-116,-100,-1,0,1,100,116,127} x 9 inputs, two orderings; float variable rule: full power of a 7-value grid for degrees 1..5(6); layered primitive vs flooding rule on extrinsics: 8-bit degree 2 over 15 message values x 52 variable values inside |v| <= 381 plus 26 large values up to 127*201 = 25527 (variables of degree up to 200), degree 3 over grids, degrees 4..8 by profile, float degrees 2..3(4) over 6-value grids; variables not on the row must be untouched. Built with overflow checks; every call guarded. Non-trivial = saturating or boundary case (quantiser, 8-bit variable rule) / completed comparison (layered).".into(),
             exhaustive: true,
             extra: serde_json::Map::new(),
             graph: None,
             assumptions: vec![
                 "float comparisons: variable rule within 4(d+1) ulp of the sum of magnitudes; layered vs flooding within 64 ulp of the largest operand (the two code paths associate the last addition differently)".into(),
-                "8-bit layered states are taken inside the reachable envelope |variable LLR| <= 127*3".into(),
+                "8-bit layered states: dense inside |variable LLR| <= 127*3, selected values up to 127*201".into(),
             ],
         },
     )
